@@ -130,6 +130,8 @@ fn main() {
                 "label" => { b.label(Label { key: payload(arg, i), value: payload("v", i + arg.len()) }); }
                 "labels" => { b.labels([Label { key: payload("l3", i), value: payload("v", i + 2) }, Label { key: payload("l4", i), value: payload("v", i + 2) }]); }
                 "slice" => { b.slice(Slice { path_globs: vec![payload(arg, i), "*.txt".into()] }); }
+                "slices" => { b.slices([Slice { path_globs: vec![payload("s2", i), "*.txt".into()] }, Slice { path_globs: vec![payload("s3", i), "*.txt".into()] }]); }
+                "processes" => { b.processes([ProcessBuilder::new("p3".parse().unwrap(), [payload("p3", i)]).build(), ProcessBuilder::new("p4".parse().unwrap(), [payload("p4", i)]).build()]); }
                 o => panic!("op {o}"),
             }
         }
